@@ -299,14 +299,25 @@ class StmtMixin:
         d = c if isinstance(c, bool) else self.path.branch(c)
         self.exec_block(s.body if d else s.orelse, fr)
 
+    def ex_AsyncWith(self, s, fr):
+        return self.ex_With(s, fr)
+
     def ex_With(self, s, fr):
+        ctxvals = []
         for item in s.items:
             v = self.ev(item.context_expr, fr)
+            ctxvals.append(v)
             self.path.trace.append(('with-enter', ast.unparse(item.context_expr)[:40]))
             if item.optional_vars is not None:
                 self.assign(item.optional_vars, v, fr)
+        import contextlib
         try:
-            self.exec_block(s.body, fr)
+            try:
+                self.exec_block(s.body, fr)
+            except PyRaise as ex:
+                # contextlib.suppress(...): the listed exceptions end the block quietly
+                if not any(isinstance(cv_, contextlib.suppress) and issubclass(ex.cls, cv_._exceptions) for cv_ in ctxvals):
+                    raise
         finally:
             self.path.trace.append(('with-exit',))
 
